@@ -52,6 +52,9 @@ class C14Entered(Harness):
         for way in ("ff", "n2", "fn1"):
             for wk in ("none", "real"):
                 yield f"st-N2-{way}-w{wk}-none-emptycopy", dict(N=2, way=way, weights=wk, post="none", M=2, emptycopy=True)
+        if tier == "quick":
+            # an odd number of values (median = the middle one) is part of the quick tier too
+            yield "st-N3-h1-wnone-none", dict(N=3, way="h1", weights="none", post="none", M=2)
         # construction from unweighted data, then one more fill: the median is no longer known
         yield "st-N2-h1+f-wnone-none", dict(N=2, way="h1+f", weights="none", post="none", M=2)
 
